@@ -279,6 +279,9 @@ def scenarios(tier):
                 for third in al:
                     k = len(parts)
                     parts.append(dict(window=w, timeout=to, ops=first + [third], n=4, roc=bool(k & 1), doc=bool(k & 2), alphabet=al))
+        # a block that neither resets nor disables on completion keeps its completed state: its timeout must be gone too
+        parts.append(dict(window=False, timeout=True, ops=["restart", "count", "wait"], n=4, roc=False, doc=False, alphabet=alpha))
+        parts.append(dict(window=False, timeout=True, ops=["restart", "count", "count", "wait"], n=4, roc=False, doc=False, alphabet=alpha))
         steps = [dict(kind=k, n=4, ops=[3, o]) for k in ("acc", "seq") for o in range(6)]
     else:
         alpha = ["count", "enable", "disable", "reset", "restart", "wait", "add", "sub", "jump"]
